@@ -356,3 +356,31 @@ func isFreshCopyOf(evs []*pw.Event, v, src *pw.Val) bool {
 func stringOfContent(evs []*pw.Event, v, src *pw.Val) bool {
 	return v != nil && v.Kind == pw.KConv && isCopyConv(v) && contentOf(evs, v.Src, src)
 }
+
+// countersStartAtZero reports the first assignment to a per-entry counter variable that is not the constant 0.
+func countersStartAtZero(p *pw.Path) *pw.Event {
+	seen := map[types.Object]bool{}
+	for _, ev := range p.Events {
+		if ev.Kind != pw.EvAssign || ev.Obj == nil || ev.Value == nil || seen[ev.Obj] {
+			continue
+		}
+		switch ev.Obj.Name() {
+		case "cnt", "n", "count", "total":
+		default:
+			continue
+		}
+		if b, ok := ev.Obj.Type().Underlying().(*types.Basic); !ok || b.Info()&types.IsInteger == 0 {
+			continue
+		}
+		seen[ev.Obj] = true
+		v := ev.Value
+		if v.Kind == pw.KConst && v.Const != nil && v.Const.ExactString() == "0" || v.Kind == pw.KZero {
+			continue
+		}
+		if v.Kind == pw.KCall || v.Kind == pw.KParam {
+			continue // initialised from a call result / parameter: not a literal counter
+		}
+		return ev
+	}
+	return nil
+}
